@@ -15,6 +15,8 @@ structure Beh where
   skip  : List Nat := []
   empty : List Nat := []
   dnone : List Nat := []
+  cskip : List Nat := []     -- content-keyed `None`: keyed on the handed set, not on the call counter (`keyOf`)
+  cdnone : List Nat := []    -- content-keyed callable → `None`
   defer : Bool := false
   lone  : Bool := false
 
@@ -25,11 +27,15 @@ def parseBeh (j : Json) : R Beh := do
   return { kind := ← strF j "kind",
            topics := ← (match optF j "topics" with | none => pure [] | some a => do (← arr a).mapM str),
            frm := (strF j "frm").toOption.getD "", to := (strF j "to").toOption.getD "", name := (strF j "name").toOption.getD "",
-           skip := ← nats "skip", empty := ← nats "empty", dnone := ← nats "dnone",
+           skip := ← nats "skip", empty := ← nats "empty", dnone := ← nats "dnone", cskip := ← nats "cskip", cdnone := ← nats "cdnone",
            defer := (boolF j "defer").toOption.getD false, lone := (boolF j "lone").toOption.getD false }
 
+/-- key of a handed set for the content-keyed behaviours: `(sum of the payload contents // 10) % 8` (for a source with one visible topic:
+the source frame number mod 8) — independent of the call counter -/
+def keyOf (h : List (Topic × Nat)) : Nat := ((h.map (·.2)).sum / 10) % 8
+
 def plainOf (b : Beh) (i n : Nat) (h : List (Topic × Nat)) : Loop.Plain Nat :=
-  if b.skip.contains n then .none
+  if b.skip.contains n || b.cskip.contains (keyOf h) then .none
   else if b.empty.contains n then .dict []
   else match b.kind with
     | "src" => if b.lone then .frame (n * 10) else .dict (b.topics.mapIdx fun k t => (t, n * 10 + k))
@@ -47,7 +53,7 @@ def behProc (behs : List Beh) : Proc := fun i n h =>
   match behs[i]? with
   | none => .now .none
   | some b =>
-    if b.dnone.contains n then .later .none
+    if b.dnone.contains n || b.cdnone.contains (keyOf h) then .later .none
     else if b.defer then .later (plainOf b i n h) else .now (plainOf b i n h)
 
 def parseEv (o : Json) : R Ev := do
